@@ -1002,7 +1002,13 @@ async def _proto_driver(w: JupyterWorld, scn: dict, rec: dict) -> None:
         return conn
 
     for chan in CHANNELS:
-        await connect(chan, spec["hello"].get(chan))
+        try:
+            await connect(chan, spec["hello"].get(chan))
+        except ConnectionRefusedError:
+            # the kernel closed its listening sockets although nothing invalid was sent: judged by the oracle
+            rec["refused"].append(chan)
+            rec["t_end"] = w.loop.vt
+            return
         if chan == "iopub" and spec.get("subscribe", True):
             await conns["iopub"].send(N.enc_message([b"\x01"]))
     await w.settle(0.5)
@@ -1109,7 +1115,7 @@ async def _proto_driver(w: JupyterWorld, scn: dict, rec: dict) -> None:
 def _run_proto(scn: dict) -> dict:
     spec = scn["spec"]
     w = JupyterWorld(scn["cfg"], spec)
-    rec = {"reqs": [], "hb": [], "conns": [], "loggers": [], "handshake_bad": []}
+    rec = {"reqs": [], "hb": [], "conns": [], "loggers": [], "handshake_bad": [], "refused": []}
 
     async def driver(world):
         try:
@@ -1148,6 +1154,11 @@ def _oracle_proto(w: JupyterWorld, scn: dict, rec: dict):
     for chan in rec["handshake_bad"]:
         violations.append(_viol("C19.wire_format", {"routine": "handshake"},
                                 f"{chan}: what the kernel sent on connect is not a ZMTP 3.0 greeting + READY"))
+    for chan in rec["refused"]:
+        errs = [r["msg"].split("\n")[0][:160] for r in w.logs if r["level"] == "ERROR"]
+        violations.append(_viol("C19.session_lost", {"phase": "connect"},
+                                f"connecting to {chan} was refused: the kernel shut the session down while well-formed "
+                                f"clients were connecting (hello fragmentation {spec['hello']}); kernel log: {errs[:3]}"))
     for conn in rec["conns"]:
         if conn.decoder.error and conn.name not in rec["handshake_bad"]:
             violations.append(_viol("C19.wire_format", {"routine": conn.name},
